@@ -6,7 +6,7 @@ from gencheck import *
 
 def run(tier):
     C = Check('C15', tier)
-    C.prove('Properties/C15.v', bridges={'Model/Recover.v': [], 'Properties/C02R.v': []})
+    C.prove('Properties/C15.v', bridges={'Model/Recover.v': [], 'Properties/C02R.v': [], 'Properties/C03R.v': []})
     C.cov['tie']['protocol_code_generator + generated code'] = ('correspondence-only: real generator + generated code executed in both entry modes, with validation '
                                                                'errors planted at any depth and writer/reader primitives failing at their k-th call')
     quick = tier == 'quick'
